@@ -503,6 +503,14 @@ func cSvcObj(svc *v1.Service, sp gSpec) string {
 	return cCtor("Build_svcobj", cBool(sp.LB), req, cBool(sp.ClusterOK), want, wp, "[]", cNone)
 }
 
+func gIPStrs(ips []net.IP) []string {
+	var out []string
+	for _, x := range ips {
+		out = append(out, x.String())
+	}
+	return out
+}
+
 func gStatusIPs(s *v1.Service) []net.IP {
 	var out []net.IP
 	for _, in := range s.Status.LoadBalancer.Ingress {
@@ -877,6 +885,8 @@ func hRunHistory(t *testing.T, out *vOut, r *rand.Rand, id int) {
 	disturbed := map[string]bool{}
 	// statuses recorded in the API at the time of the last restart
 	atCrash := map[string][]net.IP{}
+	atCrashSpec := map[string]gSpec{}
+	disturbedCrash := map[string]bool{} // spec edited / addresses inadmissible at some point since the restart
 
 	observe := func() (string, hObs) {
 		ob := hObs{Statuses: map[string][]string{}, Annots: map[string]string{}, Mem: map[string][]string{}}
@@ -950,6 +960,7 @@ func hRunHistory(t *testing.T, out *vOut, r *rand.Rand, id int) {
 		}
 		if osp, ok := w.specs[name]; !ok || fmt.Sprint(osp) != fmt.Sprint(sp) {
 			disturbed[name] = true
+			disturbedCrash[name] = true
 		}
 		w.specs[name] = sp
 		w.queue[name] = true
@@ -967,6 +978,7 @@ func hRunHistory(t *testing.T, out *vOut, r *rand.Rand, id int) {
 		}
 		delete(w.specs, name)
 		disturbed[name] = true
+		disturbedCrash[name] = true
 		w.queue[name] = true
 		w.syncs, w.order = nil, nil
 		record(cCtor("UDel", cNi(gNum(gNsvc, name))), hEvent{Kind: "del", Svc: name})
@@ -982,6 +994,11 @@ func hRunHistory(t *testing.T, out *vOut, r *rand.Rand, id int) {
 		for nm, sn := range prevQ {
 			if len(sn.ips) > 0 && !oAdmissible(ps, nm, sn.spec, sn.ips) {
 				disturbed[nm] = true
+			}
+		}
+		for nm, ips := range atCrash {
+			if len(ips) > 0 && !oAdmissible(ps, nm, atCrashSpec[nm], ips) {
+				disturbedCrash[nm] = true
 			}
 		}
 		for _, nm := range w.existing() { // what the service holds right now (it may have gained an address since)
@@ -1042,6 +1059,52 @@ func hRunHistory(t *testing.T, out *vOut, r *rand.Rand, id int) {
 		if err == nil {
 			portChanged = map[string]bool{}
 		}
+		if crashedSince {
+			// C06/C03: every pass after a restart (complete or to be retried) must keep every recorded, still admissible address
+			if err == nil {
+				crashedSince = false
+			}
+			out.Stat("restart_checks", 1)
+			for nm, had := range atCrash {
+				cs := w.get(nm)
+				if len(had) == 0 || disturbedCrash[nm] || cs == nil {
+					continue
+				}
+				sp := atCrashSpec[nm]
+				now := gStatusIPs(cs)
+				okGain := sp.Pol == "prefer" && sp.Fam == "dual" && len(had) == 1 && len(now) == 2 && subsetIPs(had, now)
+				if sameSet(had, now) || okGain {
+					continue
+				}
+				disturbed[nm] = true // reported here, not again by the stability check
+				disturbedCrash[nm] = true
+				sig := "restart-changed-admissible-status"
+				for _, other := range w.existing() {
+					if other == nm {
+						continue
+					}
+					oips := gStatusIPs(w.get(other))
+					oips = append(oips, w.c.ips.IPs(other)...) // its status write may have failed in this pass
+					for _, x := range had {
+						for _, y := range oips {
+							if x.Equal(y) && len(atCrash[other]) > 0 {
+								osp := w.specs[other]
+								if osp.Pol == "prefer" && len(atCrash[other]) == 1 && len(w.c.ips.IPs(other)) == 2 && subsetIPs(atCrash[other], w.c.ips.IPs(other)) {
+									sig = "restart-preferdual-additional-steals"
+								} else if sig != "restart-preferdual-additional-steals" {
+									sig = "restart-recorded-service-reallocates-before-victim"
+								}
+							}
+						}
+					}
+				}
+				others := map[string][]string{}
+				for _, other := range w.existing() {
+					others[other] = gIPStrs(gStatusIPs(w.get(other)))
+				}
+				fail(sig, fmt.Sprintf("%s had %v recorded at the restart (still admissible, spec unchanged) and holds %v after a full pass; statuses now %v, at the restart %v", nm, had, now, others, atCrash))
+			}
+		}
 		var ord []string
 		for _, nm := range names {
 			ord = append(ord, cNi(gNum(gNsvc, nm)))
@@ -1062,8 +1125,11 @@ func hRunHistory(t *testing.T, out *vOut, r *rand.Rand, id int) {
 		w.syncs, w.order = nil, nil
 		crashedSince = true
 		atCrash = map[string][]net.IP{}
+		atCrashSpec = map[string]gSpec{}
+		disturbedCrash = map[string]bool{}
 		for _, nm := range w.existing() {
 			atCrash[nm] = gStatusIPs(w.get(nm))
+			atCrashSpec[nm] = w.specs[nm]
 		}
 		record("ECrash", hEvent{Kind: "crash"})
 		out.Stat("ev_crash", 1)
@@ -1166,12 +1232,18 @@ func hRunHistory(t *testing.T, out *vOut, r *rand.Rand, id int) {
 			}
 		}
 		// C07: a LoadBalancer service without address only if nothing is admissible
+		starved := false
 		for _, nm := range names {
 			sp := w.specs[nm]
 			if len(cur[nm].ips) > 0 || !sp.LB || !sp.ClusterOK {
 				continue
 			}
 			out.Stat("pending_services_at_quiescence", 1)
+			oCodeSharing = true
+			if _, _, okCode := oFindAdmissible(w.pools, nm, sp, cur); okCode {
+				starved = true // the implementation's own sharing rule (F7) would serve it: the re-sync below may write
+			}
+			oCodeSharing = false
 			if cand, onlyShared, ok := oFindAdmissible(w.pools, nm, sp, cur); ok {
 				oStrictSharing = true
 				_, _, okStrict := oFindAdmissible(w.pools, nm, sp, cur)
@@ -1191,6 +1263,8 @@ func hRunHistory(t *testing.T, out *vOut, r *rand.Rand, id int) {
 				}
 				if !okStrict {
 					sig = "mixed-policy-identical-selectors-refused"
+				} else {
+					starved = true // the re-sync below will (rightly) hand it an address: not a C03 matter
 				}
 				fail(sig, fmt.Sprintf("%s (%+v) has no address at quiescence although %v is admissible", nm, sp, cand))
 			}
@@ -1214,35 +1288,11 @@ func hRunHistory(t *testing.T, out *vOut, r *rand.Rand, id int) {
 				okGain := spNow.Pol == "prefer" && spNow.Fam == "dual" && len(p.ips) == 1 && len(now) == 2 && subsetIPs(p.ips, now)
 				if !sameSet(p.ips, now) && !okGain {
 					sig := "status-changed-spontaneously"
-					if crashedSince {
-						sig = "restart-changed-admissible-status"
-						// who holds the lost address now?  A thief that itself had a recorded address at the
-						// restart is the known weakness of the one-pass first sync (F14 / F21); a thief without
-						// any recorded address would be a new defect.
-						for _, other := range names {
-							if other == nm {
-								continue
-							}
-							for _, x := range p.ips {
-								for _, y := range cur[other].ips {
-									if x.Equal(y) && len(atCrash[other]) > 0 {
-										osp := w.specs[other]
-										if osp.Pol == "prefer" && len(atCrash[other]) == 1 && len(cur[other].ips) == 2 && subsetIPs(atCrash[other], cur[other].ips) {
-											sig = "restart-preferdual-additional-steals"
-										} else if sig != "restart-preferdual-additional-steals" {
-											sig = "restart-recorded-service-reallocates-before-victim"
-										}
-									}
-								}
-							}
-						}
-					}
 					fail(sig, fmt.Sprintf("%s held %v (still admissible, spec unchanged) and now holds %v", nm, p.ips, now))
 				}
 			}
 		}
 		prevQ = cur
-		crashedSince = false
 		disturbed = map[string]bool{}
 		// C03: re-processing converged services writes nothing
 		// (at most one normalising write: a status whose addresses are only re-ordered)
@@ -1273,6 +1323,9 @@ func hRunHistory(t *testing.T, out *vOut, r *rand.Rand, id int) {
 		if nw > 0 && same {
 			out.Stat("normalising_writes", nw)
 			nw, same = resync()
+		}
+		if starved {
+			nw = 0
 		}
 		if nw > 0 && f22 && !same {
 			fail("preferdual-gain-despite-single-requested-address", "a PreferDualStack service requesting one address gained a second one and was cleared by the next re-sync")
@@ -1452,6 +1505,34 @@ func hRunHistory(t *testing.T, out *vOut, r *rand.Rand, id int) {
 
 // may the service hold x given everybody else's statuses? second result: x is held by somebody
 var oStrictSharing bool // mixed Local/Cluster pairs never share (what a single backend key can express)
+var oCodeSharing bool   // sharing as the implementation's backend key decides it (F7: Local + empty selector = Cluster)
+
+func oBackendKeyLike(sp gSpec) string {
+	if sp.Local {
+		return fmt.Sprint(sp.Selector)
+	}
+	return fmt.Sprint(map[string]string(nil))
+}
+func oShareableCode(a, b gSpec) bool {
+	if a.Sharing == "" || a.Sharing != b.Sharing {
+		return false
+	}
+	for _, x := range a.Ports {
+		for _, y := range b.Ports {
+			if x == y {
+				return false
+			}
+		}
+	}
+	ka, kb := oBackendKeyLike(a), oBackendKeyLike(b)
+	if len(a.Selector) == 0 {
+		ka = fmt.Sprint(map[string]string(nil))
+	}
+	if len(b.Selector) == 0 {
+		kb = fmt.Sprint(map[string]string(nil))
+	}
+	return ka == kb
+}
 
 func oFreeFor(name string, sp gSpec, x net.IP, cur map[string]hSnap) (bool, bool) {
 	held := false
@@ -1462,7 +1543,11 @@ func oFreeFor(name string, sp gSpec, x net.IP, cur map[string]hSnap) (bool, bool
 		for _, y := range sn.ips {
 			if y.Equal(x) {
 				held = true
-				if !oShareable(sn.spec, sp) || (oStrictSharing && sn.spec.Local != sp.Local) {
+				if oCodeSharing {
+					if !oShareableCode(sn.spec, sp) {
+						return false, true
+					}
+				} else if !oShareable(sn.spec, sp) || (oStrictSharing && sn.spec.Local != sp.Local) {
 					return false, true
 				}
 			}
